@@ -6,7 +6,8 @@ CFG = {
                    "GeoModel/RelateSpec.lean", "GeoModel/Valid.lean", "GeoModel/Gen/Masks.lean", "GeoModel/Gen/Enums.lean",
                    "GeoModel/Ops/C02.lean", "GeoProofs/Lemmas/SegmentSpec.lean", "GeoProofs/Lemmas/RingSpec.lean",
                    "GeoProofs/Lemmas/LocateLemmas.lean", "GeoProofs/Lemmas/C02QContains.lean", "GeoProofs/Lemmas/C02QWinding.lean",
-                   "GeoProofs/Lemmas/C02QHoles.lean", "GeoProofs/Lemmas/C02QPerturb.lean"],
+                   "GeoProofs/Lemmas/C02QHoles.lean", "GeoProofs/Lemmas/C02QPerturb.lean",
+                   "GeoProofs/Lemmas/WINDJump.lean", "GeoProofs/Lemmas/WINDSimple.lean", "GeoProofs/Lemmas/WINDHoles.lean"],
     "rule": "2/3 of the cases: ordered pairs (A, B) over all 10 types (both through the Geometry enum) from one shared grid, B drawn independently or "
             "from A's own vertices / edge midpoints / edges (so containment is frequent): intersects(A,B), intersects(B,A), contains(A,B), is_within(A,B); "
             "1/3: coordinate_position(G, p) with p a vertex, an edge midpoint or a half-grid point. Three-way comparison per case: implementation, "
@@ -44,7 +45,16 @@ MANIFEST = {
             "shell ring); coordinate_position = locate and contains(Point) = mask for every OGC-valid polygon under H2 alone "
             "(coordPos_polygon_eq_locate_valid_partial, containsM_polygon_point_valid_partial) and with no hypothesis for at most one hole "
             "(coordPos_polygon_eq_locate_one_hole); off a closed ring the winding number of a point perturbed by the symbolic infinitesimal is that of the point "
-            "(windingE_perturb, first half of what H2 needs). LineString::contains(Point) with >= 2 coordinates (index argument over enumerate(); witness for the "
+            "(windingE_perturb, first half of what H2 needs). H2 from validity (WIND): the winding number of the two face samples m +- delta*n beside a point m "
+            "strictly inside an edge of a closed ring, on no other edge occurrence, differs by exactly one (windingE_jump: local form of the winding number of a "
+            "perturbed point, windingE_local, plus the increment of the edge through m); a point of a simple ring that is not one of its coordinates lies on exactly "
+            "one edge occurrence of the ring as written (ringSimple_unique_edge, through dedupConsecutive / allPairs); a vertex of the arrangement on a ring is moved "
+            "to the midpoint of an adjacent elementary sub-segment without changing the winding number about the other ring; hence II = F between two simple rings "
+            "keeps each ring out of the other's interior (rings_apart_of_ii_empty: a face atom beside the edge would be interior to both), the hole-pair clause of "
+            "polyValid gives H2 (hole_interior_off_rings), and coordinate_position = locate, contains(Point) = mask, intersects(Point) = mask, "
+            "Point.is_within(Polygon) = mask hold for EVERY OGC-valid polygon at every point with no further hypothesis (coordPos_polygon_eq_locate_valid, "
+            "containsM_polygon_point_valid, intersectsM_polygon_point_valid, withinM_point_polygon_valid); MultiPolygon with valid members keeps only the "
+            "member-against-member hypothesis (coordPos_multiPolygon_eq_locate_valid_partial). LineString::contains(Point) with >= 2 coordinates (index argument over enumerate(); witness for the "
             "one-coordinate case) and the fixed MultiLineString::contains(Point) (all member lists) equal the mask on the specification; Rect::contains(Rect) "
             "<=> every point of the inner closed rect is in the outer one (witness: not the DE-9IM mask for a zero-width Rect, K7); Line::contains(Line) <=> both "
             "end points <=> every point of the inner segment on the outer one (inner line a single point: located in the interior of the outer line). "
